@@ -31,6 +31,7 @@ T1_SOURCES = ["src/fiber_manager.c", "src/fiber.c", "src/fiber_mutex.c", "src/fi
 T1_FLAGS = ["-Dpthread_create=t1_pthread_create", "-Dfree=h_join_free"]
 L_DS, L_JI, L_RES, L_ST, L_RECL = 500, 501, 510, 200, 600
 TARGET_FIELDS = (L_DS, L_JI, L_RES, L_ST)
+L_REST, REST_BYTES = 3900, 4096     # search mode (RT_CATCHALL=1): byte b of the target fiber_t not registered otherwise = L_REST + b
 FNAME = 1000
 
 
@@ -150,6 +151,13 @@ def analyse(case, tr):
                     out.append(("the target fiber was reclaimed although it was neither joined nor detached", None))
             continue
         # a real access
+        if L_REST <= loc < L_REST + REST_BYTES:
+            # a byte of the target that the model does not know (search mode only): not part of the protocol replayed
+            # here, but touching it after the reclaim is a use-after-free like any other
+            if reclaim_idx is not None:
+                touched.append((t, cur_op(t), loc, handle_release_idx is None or
+                                (op_first[t] is not None and op_first[t] < handle_release_idx)))
+            continue
         if op_first[t] is None:
             op_first[t] = idx
         op = cur_op(t)
@@ -439,12 +447,13 @@ def search(ctx, exe):
         cases = [set_fix(c, code_is_fixed()) for c in gen_cases(c2, "thorough")[:20000]]
     finally:
         c2.cleanup()
-    impl = core.run_sharded([exe], cases)
+    # RT_CATCHALL: every byte of the target fiber_t is a scheduling point (fields the model does not know included)
+    impl = core.run_sharded(["env", "RT_CATCHALL=1", exe], cases)
     kn = known()
     for c, line in zip(cases, impl):
-        why = monitor(c, core.parse_trace(line) if line else None, line)
+        why = core.safe_monitor(monitor, c, core.parse_trace(line) if line else None, line)
         if why:
-            core.report_violation(ctx, "join", c, why, line, kn)
+            core.report_violation(ctx, "join+catchall", c, why, line, kn)
             if len(ctx.violations) >= 3:
                 break
 
@@ -458,6 +467,11 @@ def replay(ctx, payload):
     if not exe or not c:
         print("nothing to replay (no concrete case in this file)")
         return 2
+    if str(payload.get("harness", "")).endswith("+catchall"):
+        impl = core.run_sharded(["env", "RT_CATCHALL=1", exe], [c])[0]
+        why = core.safe_monitor(monitor, c, core.parse_trace(impl) if impl is not None else None, impl)
+        print("case:  %s\nimpl (every byte of the object a scheduling point):  %s\nmonitor: %s" % (c, impl, why or "ok"))
+        return 1 if why else 0
     impl = core.run_sharded([exe], [c])[0]
     mod = core.model_run("join", [c])[0]
     why = monitor(c, core.parse_trace(impl), impl)
